@@ -32,6 +32,8 @@ def must_see(tier):
         m[impl + ':subclass-round-trip'] = 200
         m[impl + ':setstate-on-live'] = 200
         m[impl + ':setstate-empty-on-live'] = 5
+        m[impl + ':setstate-on-chained-leaf'] = 20
+    m['c-written-keys-cross-load'] = 20
     for p in range(6):
         m['protocol:%d' % p] = 50
     m['cross:c->py'] = 50
@@ -297,6 +299,74 @@ def run_db_case(fam, kind, rng, rec, ci):
                 return
 
 
+class GtKey:
+    """Totally ordered through __gt__ / __eq__ only (no __lt__): the C
+    implementation accepts such keys (it asks whether the type has rich
+    comparison at all), the Python key check refuses them at the API - but
+    databases written by C hold them, and Python must be able to LOAD what
+    C wrote."""
+    __slots__ = ('n',)
+
+    def __init__(self, n):
+        self.n = n
+
+    def __reduce__(self):
+        return (GtKey, (self.n,))
+
+    def __repr__(self):
+        return 'GtKey(%r)' % (self.n,)
+
+    def __hash__(self):
+        return hash(self.n)
+
+    def __eq__(self, o):
+        return isinstance(o, GtKey) and self.n == o.n
+
+    def __gt__(self, o):
+        return self.n > o.n
+
+
+def run_c_written_keys(fam, kind, rng, rec):
+    """A container written by the C implementation with keys only C's API
+    accepts: the pure-Python classes must load its pickle (every protocol)
+    and write the same bytes back."""
+    is_mapping = kind in families.MAPPING_KINDS
+    cls = fam.cls(kind, 'c')
+    c = cls()
+    # (stock classes, default node sizes: 70 keys make a multi-leaf tree)
+    n = rng.choice([1, 2, 7]) if kind not in families.TREE_KINDS else \
+        rng.choice([1, 35, 70])
+    try:
+        for i in rng.sample(range(-5, 120), n):
+            if is_mapping:
+                c[GtKey(i)] = i
+            else:
+                c.add(GtKey(i))
+    except TypeError:
+        rec.ev('gtkey-refused-by-c')
+        return
+    want = harness.contents(c, is_mapping)
+    desc = dict(family=fam.name, kind=kind, impl='c->py', keys='GtKey',
+                n=n)
+    for proto in (0, 2, 3, 5):
+        dc = pickle.dumps(c, proto)
+        rec.evaluations += 1
+        rec.ev('c-written-keys-cross-load')
+        try:
+            p2 = loads_as_py(dc)
+            got = harness.contents(p2, is_mapping)
+            back = pickle.dumps(p2, proto)
+        except Exception as e:
+            rec.violation('python-cannot-load-what-c-wrote', proto=proto,
+                          detail='%s: %s' % (type(e).__name__, e), **desc)
+            return
+        if not eq(got, want) or back != dc:
+            rec.violation('python-reads-c-pickle-differently', proto=proto,
+                          same_contents=eq(got, want),
+                          same_bytes=back == dc, **desc)
+            return
+
+
 _SUBS = {}
 
 
@@ -389,11 +459,36 @@ def run_live_setstate(fam, kind, impl, src, want, rng, rec, desc, uni):
     live = cls()
     old_keys = rng.sample(uni, min(len(uni), rng.choice([2, 9, 25])))
     vals = fam.values(rng)
-    for k in old_keys:
-        if is_mapping:
-            live[k] = vals[0]
-        else:
-            live.add(k)
+    holder = None
+    if not is_tree and len(old_keys) >= 4 and rng.random() < .5:
+        # a leaf that sits in the MIDDLE of a chain (it has a successor):
+        # the first leaf of a small tree
+        # (a subclass: node sizes set on the stock class are process-global)
+        tcls = harness.subclass_with_sizes(
+            fam.cls('BTree' if is_mapping else 'TreeSet', impl), 2, 2)
+        holder = tcls()
+        try:
+            for k in old_keys:
+                if is_mapping:
+                    holder[k] = vals[0]
+                else:
+                    holder.add(k)
+            cand = holder._firstbucket
+            if cand is not None and type(cand) is cls and \
+                    cand.__getstate__()[1:]:
+                live = cand
+                old_keys = list(live.keys())
+                rec.ev(impl + ':setstate-on-chained-leaf')
+            else:
+                holder = None
+        except Exception:
+            holder = None
+    if holder is None:
+        for k in old_keys:
+            if is_mapping:
+                live[k] = vals[0]
+            else:
+                live.add(k)
     def fresh_state():
         d_ = pickle.dumps(src, 3)
         return (pickle.loads(d_) if impl == 'c' else
@@ -441,6 +536,8 @@ def run_case(fam, kind, rng, rec, ci):
     is_tree = kind in families.TREE_KINDS
     if is_tree and ci % 4 == 1:
         run_subclass_case(fam, kind, rng, rec, ci)
+    if fam.kc == 'O' and ci % 4 == 2:
+        run_c_written_keys(fam, kind, rng, rec)
     is_mapping = kind in families.MAPPING_KINDS
     sizes = gen.NODE_SIZES[ci % len(gen.NODE_SIZES)] if is_tree else None
     if is_tree and ci % 8 == 7:
